@@ -116,6 +116,26 @@ func §E() {
 	i = 1
 	tr.V(1, g())
 }`, "eta:indexed"),
+		by("by-eta-package-level-funcvar", `
+var §step = func(x int) int { return x + 1 }
+
+func §apply(f func(int) int, x int) int { return f(x) }
+func §E() {
+	g := func(x int) int { return §step(x) }
+	§step = func(x int) int { return x + 100 }
+	tr.V(1, g(1))
+	tr.V(2, §apply(g, 2))
+}`, "eta:funcvar"),
+		by("by-eta-partially-instantiated-generic", `
+func §pick[T any, S any](x S) T {
+	var z T
+	tr.U(x)
+	return z
+}
+func §E() {
+	f := func(x int) float64 { return §pick[float64](x) }
+	tr.V(1, int(f(3)))
+}`, "eta:generic"),
 		by("by-eta-stable-package-func", `
 func §double(x int) int { return 2 * x }
 func §E() {
@@ -187,6 +207,30 @@ func §gen() ITER[int] GEN[int]{
 	RETNIL
 }GEN
 `+StdEntry, "eta:funcvar"),
+		Raw("opt-package-level-funcvar-wrapper-passed-to-generator", `
+var §step = func(x int) int { return x + 1 }
+
+func §walk(n int, next func(int) int) ITER[int] GEN[int]{
+	x := 0
+	for i := 0; i < n; i++ {
+		YIELD(x)
+		x = next(x)
+	}
+	RETNIL
+}GEN
+func §E() {
+	§step = func(x int) int { return x + 1 }
+	it := §walk(4, func(x int) int { return §step(x) })
+	tr.V(1, it.MoveNext())
+	tr.V(2, it.Current())
+	tr.V(3, it.MoveNext())
+	tr.V(4, it.Current())
+	§step = func(x int) int { return x + 100 }
+	for it.MoveNext() {
+		tr.V(5, it.Current())
+	}
+}
+`, "eta:funcvar"),
 		Raw("opt-closure-get-after-yield", `
 type §box struct{ v int }
 
